@@ -1,7 +1,7 @@
 (* Glob/GlobProofs.v — exactness of the model of glob.go against the documented
    syntax (GlobSpec.v): the [...] loop against [set_items], the main loop
    against [elems] (soundness by induction on the fuel, completeness by
-   induction on the derivation), and the wrappers against [valid]. *)
+   induction on the derivation), the wrappers against [valid]; ref => path. *)
 From Coq Require Import List NArith Bool Arith Lia.
 From AL Require Import Glob.Glob Glob.GlobSpec Glob.GlobFuel.
 Import ListNotations.
@@ -627,4 +627,128 @@ Proof.
     rewrite (validate_exact false pat NB). split; [|tauto]. intros H. split; [|exact H]. intros _. split.
     + intros l E. assert (T : hd_is pat 32 = true) by (apply hd_is_iff; eauto). congruence.
     + intros Hne E. assert (T : last_is pat 32 = true) by (apply last_is_iff; auto). congruence.
+Qed.
+
+(* ---------- ref => path ---------- *)
+Lemma set_items_mono k l rest : set_items true k l rest -> set_items false k l rest.
+Proof.
+  induction 1.
+  - constructor.
+  - apply S_single; auto. destruct H0 as (? & ? & ?). split; [assumption|]. split; [assumption|intros; discriminate].
+  - apply S_range; auto.
+    + destruct H1 as (? & ? & ?). split; [assumption|]. split; [assumption|intros; discriminate].
+    + destruct H2 as (? & ? & ?). split; [assumption|]. split; [assumption|intros; discriminate].
+Qed.
+
+Lemma elems_mono p l : elems true p l -> elems false p l.
+Proof.
+  induction 1.
+  - constructor.
+  - now apply E_star.
+  - now apply E_opt.
+  - now apply E_plus.
+  - apply E_esc; auto; intros; discriminate.
+  - discriminate.
+  - eapply E_set; eauto. now apply set_items_mono.
+  - apply E_char; auto; intros; discriminate.
+Qed.
+
+Lemma last_app_ne (a b : list N) d : b <> [] -> last (a ++ b) d = last b d.
+Proof.
+  intros Hb. induction a as [|x a IH]; [reflexivity|].
+  cbn [app]. destruct (a ++ b) eqn:E.
+  - destruct a; [cbn in E; congruence|discriminate].
+  - rewrite <- IH. reflexivity.
+Qed.
+
+Lemma set_items_split isRef k l rest : set_items isRef k l rest -> exists body, l = body ++ 93 :: rest.
+Proof.
+  induction 1 as [rest|k c l rest _ _ _ _ [body ->]|k lo hi l rest _ _ _ _ _ _ [body ->]].
+  - exists []. reflexivity.
+  - exists (c :: body). reflexivity.
+  - exists (lo :: 45 :: hi :: body). reflexivity.
+Qed.
+
+Lemma last_cons_ne (x : N) l d : l <> [] -> last (x :: l) d = last l d.
+Proof. destruct l; [congruence|reflexivity]. Qed.
+
+Lemma elems_ref_last p l : elems true p l -> l <> [] -> last l 0 <> 32.
+Proof.
+  induction 1 as [p | p l Hl IH | l Hl IH | l Hl IH | p c l Hesc Href Hl IH | p l Hpath Hne Hl IH
+                 | p k l rest Hset Hk Hl IH | p c l Hc Hsp Hlb Href Hl IH]; intros Hnn.
+  - congruence.
+  - destruct l; [cbn; discriminate|]. rewrite last_cons_ne by discriminate. apply IH. discriminate.
+  - destruct l; [cbn; discriminate|]. rewrite last_cons_ne by discriminate. apply IH. discriminate.
+  - destruct l; [cbn; discriminate|]. rewrite last_cons_ne by discriminate. apply IH. discriminate.
+  - rewrite last_cons_ne by discriminate. destruct l.
+    + cbn. destruct Hesc as [ -> | [ -> | [ -> | [ -> | [ -> | -> ] ] ] ] ]; discriminate.
+    + rewrite last_cons_ne by discriminate. apply IH. discriminate.
+  - discriminate.
+  - apply set_items_split in Hset. destruct Hset as [body ->].
+    change (91 :: body ++ 93 :: rest) with ((91 :: body) ++ 93 :: rest).
+    rewrite last_app_ne by discriminate. destruct rest.
+    + cbn. discriminate.
+    + rewrite last_cons_ne by discriminate. apply IH. discriminate.
+  - destruct l.
+    + cbn. destruct (Href eq_refl) as [Hf _]. intros ->. apply Hf. unfold ref_forbidden. tauto.
+    + rewrite last_cons_ne by discriminate. apply IH. discriminate.
+Qed.
+
+Lemma elems_ref_hd p l l' : elems true p l -> l <> 32 :: l'.
+Proof.
+  intros H E. subst. inversion H; subst.
+  match goal with H : true = true -> ~ ref_forbidden 32 /\ _ |- _ => destruct (H eq_refl) as [Hf _]; apply Hf end.
+  unfold ref_forbidden. tauto.
+Qed.
+
+Lemma body_ok_mono l : body_ok true l -> body_ok false l.
+Proof.
+  intros (Hne & _ & He). split; auto. split; [discriminate|]. now apply elems_mono.
+Qed.
+
+(* every pattern valid as a ref filter is valid as a path filter *)
+Lemma valid_ref_path pat : valid true pat -> valid false pat.
+Proof.
+  intros [_ H]. split.
+  - intros _. destruct H as [(l & -> & Hb)|(Hn & Hb)].
+    + split; [discriminate|]. intros _. destruct Hb as (Hne & _ & He).
+      rewrite last_cons_ne by assumption. eapply elems_ref_last; eauto.
+    + destruct Hb as (Hne & _ & He). split.
+      * intros l. eapply elems_ref_hd; eauto.
+      * intros _. eapply elems_ref_last; eauto.
+  - destruct H as [(l & -> & Hb)|(Hn & Hb)]; [left|right]; eauto using body_ok_mono.
+Qed.
+
+Lemma ref_implies_path pat : no_bom pat ->
+  validate_ref pat = Some [] -> validate_path pat = Some [].
+Proof.
+  intros NB H. apply (glob_exact false pat NB). apply valid_ref_path. apply (glob_exact true pat NB). exact H.
+Qed.
+
+(* the excluded class is not empty talk: with a leading U+FEFF the
+   equivalence fails (known finding C17-leading-bom) *)
+Lemma glob_exact_bom_refuted :
+  exists isRef pat, valid isRef pat /\ validate_mode isRef pat <> Some [].
+Proof.
+  exists false, [65279; 43]. split; [|vm_compute; discriminate].
+  split.
+  - intros _. split; [discriminate|]. cbn. discriminate.
+  - right. split; [discriminate|]. split; [discriminate|]. split; [discriminate|].
+    apply E_char.
+    + unfold is_char; lia.
+    + unfold special; lia.
+    + unfold line_break; lia.
+    + discriminate.
+    + apply E_plus. constructor.
+Qed.
+
+(* the hypotheses are satisfiable by non-trivial patterns: "v[0-9]+.*" is a
+   valid ref (hence path) filter, and is accepted *)
+Example valid_example : valid true [118; 91; 48; 45; 57; 93; 43; 46; 42] /\
+  validate_ref [118; 91; 48; 45; 57; 93; 43; 46; 42] = Some [] /\
+  no_bom [118; 91; 48; 45; 57; 93; 43; 46; 42].
+Proof.
+  assert (NB : no_bom [118; 91; 48; 45; 57; 93; 43; 46; 42]) by (intros l; discriminate).
+  assert (V : validate_ref [118; 91; 48; 45; 57; 93; 43; 46; 42] = Some []) by (vm_compute; reflexivity).
+  split; [|split; auto]. apply (glob_exact true _ NB). exact V.
 Qed.
